@@ -304,7 +304,53 @@ class C02(Prop):
                 break
         ctx['extra_evals'] += n
         ctx['notes'].append(f'all-invalid request batches through a real RPCSession (what is written to the transport): {n}')
-        return out
+        # a handler that answers and hangs up (ReplyAndDisconnect), a request refused for excessive cost: the one response is
+        # written before the connection is closed - also when the send buffer is full at that moment and the write has to wait
+        from aiorpcx import ReplyAndDisconnect, RPCError
+        nd = 0
+        for transport in ('rs', 'us'):
+            for how in ('result', 'error', 'excessive'):
+                for full_buffer in (False, True):
+                    for batch in (False, True):
+                        loop = sessions.new_loop()
+                        try:
+                            class S2(session.RPCSession):
+                                cost_decay_per_sec = 0
+
+                                async def handle_request(self, request):
+                                    if request.method == 'bye':
+                                        raise ReplyAndDisconnect('last words' if how == 'result' else RPCError(7, 'go away'))
+                                    return 'pong'
+                            proto, ft, s2 = sessions.attach(S2, 'server', transport)
+
+                            async def main2():
+                                await sessions.settle(3)
+                                if how == 'excessive':
+                                    s2.cost = s2.cost_hard_limit + 1000
+                                    s2.recalc_concurrency()
+                                if full_buffer:
+                                    proto.pause_writing()
+                                one = '{"jsonrpc":"2.0","method":"bye","id":31}'
+                                proto.data_received((('[' + one + ']') if batch else one).encode() + b'\n')
+                                await asyncio.sleep(0.3)
+                                if full_buffer:
+                                    proto.resume_writing()
+                                await asyncio.sleep(40)
+                                msgs = sessions.sent_messages(ft, 0)
+                                flat = [e for m in msgs for e in (m if isinstance(m, list) else [m])]
+                                return {'responses_with_id_31': sum(1 for e in flat if isinstance(e, dict) and e.get('id') == 31),
+                                        'written': jv.to_plain(msgs)[:4], 'closed': ft.closing or ft.lost}
+                            o2 = loop.run_until_complete(main2())
+                        finally:
+                            sessions.close_loop(loop)
+                        nd += 1
+                        if o2['responses_with_id_31'] != 1 or not o2['closed']:
+                            out.append(Failure({'kind': 'reply_and_disconnect', 'transport': transport, 'how': how, 'send_buffer_full': full_buffer, 'in_batch': batch}, o2,
+                                               f"a request answered by hanging up ({how}{', send buffer full at that moment' if full_buffer else ''}) got "
+                                               f"{o2['responses_with_id_31']} responses carrying its id (closed: {o2['closed']}): exactly one, then the close"))
+        ctx['extra_evals'] += nd
+        ctx['notes'].append(f'reply-and-disconnect / excessive-cost refusals through a real RPCSession, send buffer free and full: {nd} scenarios')
+        return out[:4]
 
     def nontrivial(self, case, obs):
         return any(m and m.get('kind') == 'batch' and m['nreq'] >= 2 for m in case['meta'])
